@@ -269,10 +269,19 @@ func Fork(g1 uint64) *Prog {
 			{If: IDSuffix("b"), T: "w", Key: Lit("b"), Val: Num(), Ord: 1},
 			{If: IDSuffix("c"), T: "d", Key: Lit("b"), Ord: 2},
 		}},
-		"m": {Emit: Cat(ID(), Lit(" k0="), Get(0, "last", Lit("k0"), 0), Lit(" len="), Get(0, "last", Lit("len"), 0), Lit(" cnt="), Get(1, "last", Lit("cnt"), 0), Lit(" b="), Get(1, "last", Lit("b"), 0), Lit(" d="), Deltas("sf"))},
+		// a mapper that runs before a store, and a store fed by it: the recorded outputs of a block are not "stores first"
+		"pre": {Emit: Cat(Lit("p-"), ID())},
+		"sm": {Ops: []OpT{
+			{T: "w", Key: Cat(Lit("p"), Mod(2)), Val: In("pre"), Ord: 0},
+			{If: IDSuffix("b"), T: "w", Key: Cat(Lit("pb"), Num()), Val: In("pre"), Ord: 1},
+			{If: IDSuffix("c"), T: "d", Key: Lit("pb"), Ord: 2},
+		}},
+		"m": {Emit: Cat(ID(), Lit(" k0="), Get(0, "last", Lit("k0"), 0), Lit(" len="), Get(0, "last", Lit("len"), 0), Lit(" cnt="), Get(1, "last", Lit("cnt"), 0), Lit(" b="), Get(1, "last", Lit("b"), 0), Lit(" p0="), Get(2, "last", Lit("p0"), 0), Lit(" d="), Deltas("sf"))},
 	}, "m",
 		modgen.Store("sf", g1, pSet, "string", modgen.Src()),
 		modgen.Store("sadd", g1, pAdd, "int64", modgen.Src()),
-		modgen.Map("m", g1, modgen.Src(), modgen.StoreIn("sf", false), modgen.StoreIn("sadd", false), modgen.StoreIn("sf", true)),
+		modgen.Map("pre", g1, modgen.Src()),
+		modgen.Store("sm", g1, pSet, "string", modgen.MapIn("pre")),
+		modgen.Map("m", g1, modgen.Src(), modgen.StoreIn("sf", false), modgen.StoreIn("sadd", false), modgen.StoreIn("sm", false), modgen.StoreIn("sf", true)),
 	)
 }
